@@ -67,6 +67,8 @@ structure TrieOps (T : Type) where
   M : AuthMap T
   rootOf : T → Bytes
   reopen : Bytes → T
+  /-- the state root of the empty trie is the zero hash (trie.go StateRoot / `util.Uint256{}`). -/
+  rootOf_empty : rootOf M.empty = List.replicate 32 0
 
 structure Module (T : Type) where
   store : KVs
@@ -95,6 +97,22 @@ def init {T : Type} (O : TrieOps T) (m : Module T) (height : Nat) : Option (Modu
   | none => if height = 0 then some { m with currentLocal := List.replicate 32 0 } else none
   | some r => some { m with currentLocal := r.root, localHeight := r.index, mpt := O.reopen r.root }
 
+/-- module.go:351-362 `DropMPTBatch` (blockchain.go storeBlock, every failure after AddMPTBatch): the block
+AddMPTBatch was invoked for is not stored; the trie it worked on shares its nodes with the current one,
+so the current trie is reloaded from the current local root (the empty trie for the zero root). Nothing
+of the dropped block was committed to the store. -/
+def dropMPTBatch {T : Type} (O : TrieOps T) (m : Module T) : Module T :=
+  { m with mpt := if m.currentLocal = List.replicate 32 0 then O.M.empty else O.reopen m.currentLocal }
+
+/-- module.go:266-291: the backward search of ResetState for the most recent state root at or below
+`height` that carries a witness (`v[witnessesLenOffset] != 0`: the count byte of the encoded witness array);
+the seek visits the 5-byte record keys in descending key order = descending heights (`lexLt_rootKey`). -/
+def findValidated (s : KVs) : Nat → Option Nat
+  | 0 => if (((kvGet s (rootKey 0)).bind decRec).map fun r => r.wit.headD 0 != 0) = some true then some 0 else none
+  | h + 1 =>
+    if (((kvGet s (rootKey (h + 1))).bind decRec).map fun r => r.wit.headD 0 != 0) = some true then some (h + 1)
+    else findValidated s h
+
 /-! ### ResetState -/
 
 def insertK (e : Bytes × Bytes) : KVs → KVs
@@ -116,16 +134,16 @@ def resetStep (srKey : Bytes) (acc : Bool × KVs) (e : Bytes × Bytes) : Bool ×
     else acc
   else acc
 
-/-- module.go:236-297 `ResetState(height, cache)`; `validated` = what the backward search for the
-latest witnessed root found (only the key [DataMPTAux, prefixValidated] depends on it). -/
-def resetState {T : Type} (O : TrieOps T) (m : Module T) (height : Nat) (validated : Option Nat) : Option (Module T) :=
+/-- module.go:236-297 `ResetState(height, cache)`; the key [DataMPTAux, prefixValidated] gets the result of
+the backward search for the latest witnessed root (`findValidated`) or is deleted. -/
+def resetState {T : Type} (O : TrieOps T) (m : Module T) (height : Nat) : Option (Module T) :=
   match getStateRoot m height with
   | none => none
   | some sr =>
     let c1 := addLocalStateRoot m.store sr
     let srKey := rootKey height
     let c2 := ((seekFwd c1 [dataMPTAux] (be32 height)).foldl (resetStep srKey) (false, c1)).2
-    let c3 := match validated with
+    let c3 := match findValidated c2 height with
       | some v => kvPut c2 validatedKey (le32 v)
       | none => kvDel c2 validatedKey
     some { store := c3, currentLocal := sr.root, localHeight := sr.index, mpt := O.reopen sr.root }
@@ -150,8 +168,8 @@ def addStateRoot {T : Type} (m : Module T) (sr : Rec) (verified : Bool) : Module
 
 inductive Op where
   | block (b : List Change)                       -- a block stored: AddMPTBatch + commit + UpdateCurrentLocal
-  | failed (b : List Change)                      -- AddMPTBatch computed, block rejected later: nothing committed
-  | reset (h : Nat) (validated : Option Nat)      -- Blockchain.Reset(h) -> ResetState
+  | failed (b : List Change)                      -- AddMPTBatch computed, block rejected later: DropMPTBatch
+  | reset (h : Nat)                               -- Blockchain.Reset(h) -> ResetState
   | restart                                       -- process restart: Init(current height)
   | validated (sr : Rec) (verified : Bool)        -- a signed state root from the network: AddStateRoot
 
@@ -165,10 +183,10 @@ def step {T : Type} (O : TrieOps T) (s : St T) : Op → Option (St T)
     if s.chain.length < 2 ^ 32 then
       some { m := storeBlock O s.m s.chain.length b, chain := s.chain ++ [b] }
     else none
-  | .failed _ => some s
-  | .reset h v =>
+  | .failed _ => some { s with m := dropMPTBatch O s.m }
+  | .reset h =>
     if h < s.chain.length then
-      match resetState O s.m h v with
+      match resetState O s.m h with
       | some m' => some { m := m', chain := s.chain.take (h + 1) }
       | none => some s
     else some s                                    -- refused: "can't reset state to height"
